@@ -482,7 +482,10 @@ bs_done:
 		if (rc != KSI_OK) KSI_AsyncHandle_free(h);
 		else { KSI_uint64_t id = 0; KSI_AsyncHandle_getRequestId(h, &id); kx_out(" reqid=%llu", (unsigned long long)id); }
 		return rc; }
-	if (is("async_run")) { KSI_AsyncService *s = *kx_asvcslot(atoi(tok[1])); KSI_AsyncHandle *h = NULL; size_t waiting = 0; int rc = KSI_AsyncService_run(s, &h, &waiting);
+	if (is("async_run")) { /* the out-parameters are poisoned before the call: a successful call has to set both */
+		static char stale; KSI_AsyncService *s = *kx_asvcslot(atoi(tok[1])); KSI_AsyncHandle *h = (KSI_AsyncHandle *)(void *)&stale; size_t waiting = (size_t)-7; int rc = KSI_AsyncService_run(s, &h, &waiting);
+		if (h == (KSI_AsyncHandle *)(void *)&stale) { h = NULL; if (rc == KSI_OK) { kx_out(" waiting=%zu handle=stale", waiting); return rc; } }
+		if (waiting == (size_t)-7 && rc == KSI_OK) kx_out(" waitingstale=1");
 		kx_out(" waiting=%zu", waiting);
 		if (h) { kx_out(" handle=1"); out_handle(h);
 			if (kx_kv("keep")) { KSI_AsyncHandle **hs = kx_ahndslot((int)kx_kvl("keep", 0)); KSI_AsyncHandle_free(*hs); *hs = h; }   /* keep=<slot>: the caller keeps the handle object (async_readd adds it again) */
